@@ -378,6 +378,68 @@ def dictionary_checks(acc, g):
                               {"class": n, "definitions": dn[row["code"]], "want": row["name"]})
 
 
+def later_classes(acc, g, rng):
+    """'... and any added later': a DiameterAVP subclass an application defines after the library has already decoded traffic
+    joins the dictionary - decoding dispatches its (vendor, code) to it and its type is enforced on decode."""
+    from bromelia.base import DiameterAVP
+    from bromelia.types import Unsigned32Type, UTF8StringType
+    from bromelia.utils import convert_to_4_bytes
+    import bromelia.avps as A
+    # the dictionary has been in use
+    for _ in range(3):
+        DiameterAVP.load(R.encode_avp(R.LAvp(264, 0x40, None, b"host.example")))
+    for i in range(6):
+        vendor = rng.choice([None, 10415, 13019, 41000 + rng.randrange(1000)])
+        code = 61000 + rng.randrange(3000)
+        base = (Unsigned32Type, UTF8StringType)[i % 2]
+
+        def mk(vendor=vendor, code=code, base=base, i=i):
+            class LaterAVP(DiameterAVP, base):
+                pass
+            LaterAVP.__name__ = LaterAVP.__qualname__ = "Later%d%sAVP" % (i, base.__name__)
+            LaterAVP.code = convert_to_4_bytes(code)
+            LaterAVP.vendor_id = convert_to_4_bytes(vendor) if vendor is not None else None
+
+            def __init__(self, data, cls=LaterAVP):
+                if cls.vendor_id is not None:
+                    DiameterAVP.__init__(self, cls.code, cls.vendor_id)
+                    DiameterAVP.set_vendor_id_bit(self, True)
+                    DiameterAVP.set_mandatory_bit(self, True)
+                    base.__init__(self, data=data, vendor_id=cls.vendor_id)
+                else:
+                    DiameterAVP.__init__(self, cls.code)
+                    DiameterAVP.set_mandatory_bit(self, True)
+                    base.__init__(self, data=data)
+            LaterAVP.__init__ = __init__
+            return LaterAVP
+        cls = mk()
+        good = (rng.randrange(2 ** 32).to_bytes(4, "big") if base is Unsigned32Type else b"later value %d" % i)
+        wire = R.encode_avp(R.LAvp(code, 0x40 | (0x80 if vendor is not None else 0), vendor, good))
+        acc.evaluations += 1
+        acc.counters["later_class_decodes"] += 1
+        wit = {"class": cls.__name__, "vendor": vendor, "code": code, "wire": wire.hex()}
+        try:
+            got = DiameterAVP.load(wire)
+        except BaseException as ex:
+            acc.violation("later-class-decode-raises", "decoding an AVP of a class defined later raised %r" % (ex,), wit)
+            continue
+        if len(got) != 1 or type(got[0]) is not cls:
+            acc.violation("load-dispatch-later-class-not-used", "(%r, %d) decoded as %s after %s was defined" % (vendor, code, [type(x).__name__ for x in got], cls.__name__), wit)
+            continue
+        if got[0].dump() != wire:
+            acc.violation("later-class-redump-differs", "%s re-serialises differently" % cls.__name__, dict(wit, again=got[0].dump().hex()))
+        if base is Unsigned32Type:
+            bad = R.encode_avp(R.LAvp(code, 0x40 | (0x80 if vendor is not None else 0), vendor, b"\x01\x02\x03"))
+            try:
+                out = DiameterAVP.load(bad)
+            except BaseException:
+                acc.counters["later_class_type_enforced"] += 1
+            else:
+                acc.violation("Unsigned32-accepts-bytes-w3-on-decode-of-later-class", "a 3-byte value for %s (Unsigned32) was decoded as %s without an error" % (
+                    cls.__name__, [type(x).__name__ for x in out]), dict(wit, bad=bad.hex()))
+    acc.sigs.add("later-classes")
+
+
 def run_batch(b):
     import random
     acc = harness.Acc()
@@ -385,6 +447,9 @@ def run_batch(b):
     if b["kind"] == "dictionary":
         dictionary_checks(acc, g)
         acc.sample({"dictionary_rows": len(g.rd["avps"])})
+        return acc
+    if b["kind"] == "later":
+        later_classes(acc, g, random.Random(b["seed"]))
         return acc
     rng = random.Random(b["seed"])
     for cname in b["classes"]:
@@ -422,6 +487,8 @@ def main(tier, seed):
     batches = [{"kind": "dictionary", "seed": seed}]
     for i in range(0, len(names), 8):
         batches.append({"kind": "types", "classes": names[i:i + 8], "seed": seed * 31 + i, "n_in": 60 if q else 40000})
+    for i in range(2 if q else 16):
+        batches.append({"kind": "later", "seed": seed * 911 + i})
     acc = harness.run_workers("checks.c10_dictionary", "run_batch", batches, 1500)
     return harness.finish(PROP, tier, seed, "exploration", acc, RULE,
                           ["refdict.json is the published dictionary: frozen from the reviewed pinned tree, codes/vendors/types "
@@ -430,7 +497,7 @@ def main(tier, seed):
                            "IPFilterRule == OctetString on the wire (RFC 6733 4.3.1); Value-Digits (Integer64 in RFC 4006) is an 8-byte integer",
                            "booleans, Address families other than 1/2, int arguments for Integer32/Enumerated and URI details beyond the scheme are observed, not judged"],
                           t0, require_counters=("rejected", "accepted", "refdict_rows_compared", "instances_checked", "foreign_pair_decodes", "docs_rows_compared",
-                                                "definitions_rows_compared"))
+                                                "definitions_rows_compared", "later_class_decodes", "later_class_type_enforced"))
 
 
 def replay(w):
